@@ -337,6 +337,15 @@ class LogicalLinkController(object):
         assert isinstance(mac, (nfc.dep.Initiator, nfc.dep.Target))
         self.mac = None
 
+        # The access points for link management and service discovery
+        # are shut down when a link ends. They are needed again if the
+        # same controller is activated for another link.
+        with self.lock:
+            if self.sap[0] is None:
+                self.sap[0] = ServiceAccessPoint(0, self)
+            if self.sap[1] is None:
+                self.sap[1] = ServiceDiscovery(self)
+
         wks = 1 + sum([1 << sap for sap in self.snl.values() if sap < 15])
 
         send_pax = pdu.ParameterExchange()
